@@ -37,11 +37,20 @@ import (
 	"github.com/multiformats/go-multihash"
 )
 
-const (
+const Topic = "/verif/c04"
+
+// Wall-clock knobs.  Every bound that decides "this did NOT happen" (no event, nothing
+// started) or that the code under test can trip over (the client timeout) is scaled up when a
+// history is run again because its timing was suspicious; none of them turns into a failure
+// on the first attempt.
+var (
 	// ClientTimeout is the subscriber's HTTP client timeout: what a stalled response costs.
 	ClientTimeout = 200 * time.Millisecond
-	Topic         = "/verif/c04"
+	// WaitScale multiplies the waits below (1 on the first attempt).
+	WaitScale = 1
 )
+
+func scaled(d time.Duration) time.Duration { return d * time.Duration(WaitScale) }
 
 func init() {
 	// The subscriber's HTTP clients (plain and libp2phttp) use http.DefaultTransport.
@@ -147,7 +156,7 @@ func genKey(seed []byte) (ic.PrivKey, peer.ID) {
 }
 
 func newScript() *Script {
-	return &Script{MaxStall: 3 * time.Second, SlowLimit: ClientTimeout / 3}
+	return &Script{MaxStall: 5 * time.Second}
 }
 
 // aliveHandler consults the alive flag on every request.
@@ -287,6 +296,10 @@ type Op struct {
 	Addrs    []int   `json:"addrs"` // address ids in the order handed to the subscriber
 	Alive    []bool  `json:"alive"` // per address id
 	Head     int     `json:"head"`  // position published as root / announced
+	// Head2 (mode announce2): a second, newer head announced while the sync of Head is still
+	// running (its first request is being stalled), so that it is the handler's pending
+	// message when the first sync ends.  The fault script runs across both syncs.
+	Head2 int `json:"head2,omitempty"`
 	Faults   []Fault `json:"faults,omitempty"`
 	DiscFail bool    `json:"disc_fail,omitempty"`
 	HookFail int     `json:"hook_fail"` // index of the hook call (within this op) that calls FailSync; -1 = none
@@ -324,6 +337,9 @@ type Obs struct {
 	Slow     bool     `json:"slow,omitempty"`
 	Millis   int      `json:"ms"`
 	Panic    string   `json:"panic,omitempty"`
+	// Partial: latest-sync and store were not observed after this sync (the next one was
+	// already queued and started at once); the values given are what the events imply.
+	Partial bool `json:"partial,omitempty"`
 }
 
 type Run struct {
@@ -335,6 +351,8 @@ type Run struct {
 	evCh  <-chan dagsync.SyncFinished
 	evCan context.CancelFunc
 	cliHost host.Host
+
+	annOK map[int]bool // heads whose announce-triggered sync succeeded on this subscriber
 
 	hookMu   sync.Mutex
 	hookLog  []int
@@ -366,7 +384,7 @@ func (w *World) logEnt(r Req) LogEnt {
 
 // NewRun makes a fresh subscriber (fresh store, fresh syncers, fresh duplicate filter).
 func (w *World) NewRun(cfg Config) *Run {
-	r := &Run{W: w, Cfg: cfg, hookFail: -1}
+	r := &Run{W: w, Cfg: cfg, hookFail: -1, annOK: map[int]bool{}}
 	r.DS = dssync.MutexWrap(datastore.NewMapDatastore())
 	r.lsys = MkLinkSystem(r.DS)
 	hook := func(p peer.ID, c cid.Cid, act dagsync.SegmentSyncActions) {
@@ -500,11 +518,11 @@ func (r *Run) store() (ps []int, bad []string) {
 // IdleWait: an announce-triggered sync that shows no activity at the fault layer for this
 // long (longer than the client timeout) and has produced no event is taken to have ended
 // without one.
-var IdleWait = ClientTimeout + 600*time.Millisecond
+func IdleWait() time.Duration { return scaled(ClientTimeout + 600*time.Millisecond) }
 
 func (r *Run) collect(n int, wait time.Duration) []Ev {
 	var out []Ev
-	deadline := time.After(wait)
+	deadline := time.After(scaled(wait))
 	tick := time.NewTicker(5 * time.Millisecond)
 	defer tick.Stop()
 	act, since := r.W.S.Activity(), time.Now()
@@ -518,7 +536,7 @@ func (r *Run) collect(n int, wait time.Duration) []Ev {
 		case <-tick.C:
 			if a := r.W.S.Activity(); a != act {
 				act, since = a, time.Now()
-			} else if time.Since(since) > IdleWait {
+			} else if time.Since(since) > IdleWait() {
 				return out
 			}
 		case <-deadline:
@@ -549,7 +567,7 @@ func (r *Run) Do(op Op) (o Obs) {
 	t0 := time.Now()
 	w.SetAlive(op.Alive)
 	w.Pub.SetRoot(w.Chain[op.Head-1])
-	ctx, cancel := context.WithTimeout(context.Background(), 20*time.Second)
+	ctx, cancel := context.WithTimeout(context.Background(), scaled(30*time.Second))
 	defer cancel()
 	w.S.Set(op.Faults, cancel, op.DiscFail)
 	r.hookMu.Lock()
@@ -587,8 +605,10 @@ func (r *Run) Do(op Op) (o Obs) {
 				o.Result, o.Err = "err", err.Error()
 				break
 			}
-			if o.Latest0 == op.Head {
-				// already synced: the announcement must not start anything; a short look suffices
+			if o.Latest0 == op.Head || r.annOK[op.Head] {
+				// already synced (or an announce-triggered sync of this CID succeeded before: the
+				// duplicate filter drops it): the announcement must not start anything; a short
+				// look suffices
 				o.Events = r.collect(1, 30*time.Millisecond)
 			} else {
 				o.Events = r.collect(1, EventWait)
@@ -598,10 +618,38 @@ func (r *Run) Do(op Op) (o Obs) {
 			} else {
 				o.Result = "event"
 			}
+		case "announce2":
+			act := w.S.Activity()
+			if err := r.Sub.Announce(ctx, w.Chain[op.Head-1], ai); err != nil {
+				o.Result, o.Err = "err", err.Error()
+				break
+			}
+			// wait until the first request of that sync has reached the fault layer (it is
+			// being stalled there), then announce the newer head
+			for t0 := time.Now(); w.S.Activity() == act && time.Since(t0) < scaled(3*time.Second); {
+				time.Sleep(time.Millisecond)
+			}
+			if err := r.Sub.Announce(ctx, w.Chain[op.Head2-1], ai); err != nil {
+				o.Result, o.Err = "err", err.Error()
+				break
+			}
+			o.Events = r.collect(2, EventWait)
+			if len(o.Events) == 0 {
+				o.Result = "noevent"
+			} else {
+				o.Result = "event"
+			}
 		default:
 			panic("faultdrv: unknown mode " + op.Mode)
 		}
 	}()
+	if op.Mode != "explicit" {
+		for _, e := range o.Events {
+			if !e.Err {
+				r.annOK[e.Cid] = true
+			}
+		}
+	}
 	o.Latest = r.latest()
 	o.Store, o.BadStore = r.store()
 	log, consumed, disc, slow := w.S.Take()
@@ -617,11 +665,81 @@ func (r *Run) Do(op Op) (o Obs) {
 	return o
 }
 
-// History runs the ops on one fresh subscriber.
-func (w *World) History(cfg Config, ops []Op) (obs []Obs, late []Ev) {
+// Split turns the observation of an announce2 op into the two syncs that happened: the
+// sync of Head (everything before the first request / hook call for Head2) and the sync of
+// Head2.  What lies between them was not observed (Partial).
+func (w *World) Split(op Op, o Obs, prevStore []int) (opX, opY Op, oX, oY Obs) {
+	iY := len(o.Log)
+	for i, e := range o.Log {
+		if e.Rsrc == op.Head2 {
+			iY = i
+			break
+		}
+	}
+	hY := len(o.Hooks)
+	for i, p := range o.Hooks {
+		if p == op.Head2 {
+			hY = i
+			break
+		}
+	}
+	consumed := 0
+	have := map[int]bool{}
+	for _, p := range prevStore {
+		have[p] = true
+	}
+	for _, e := range o.Log[:iY] {
+		if e.F != "dead" {
+			consumed++
+		}
+		if e.F == "ok" && e.Rsrc > 0 && e.NoPath == (w.Kind == "legacy") {
+			have[e.Rsrc] = true
+		}
+	}
+	if consumed > len(op.Faults) {
+		consumed = len(op.Faults)
+	}
+	opX = Op{Mode: "announce", Addrs: op.Addrs, Alive: op.Alive, Head: op.Head, Faults: op.Faults[:consumed], DiscFail: op.DiscFail, HookFail: -1}
+	opY = Op{Mode: "announce", Addrs: op.Addrs, Alive: op.Alive, Head: op.Head2, Faults: op.Faults[consumed:], HookFail: -1}
+	oX = Obs{Result: "noevent", Latest0: o.Latest0, Latest: o.Latest0, Log: o.Log[:iY], Hooks: o.Hooks[:hY], Partial: true, Millis: o.Millis, Slow: o.Slow, Panic: o.Panic}
+	oY = Obs{Result: "noevent", Latest: o.Latest, Store: o.Store, BadStore: o.BadStore, Log: o.Log[iY:], Hooks: o.Hooks[hY:], Consumed: o.Consumed - consumed, Err: o.Err}
+	if o.Result == "panic" {
+		oX.Result = "panic"
+	}
+	if len(o.Events) > 0 {
+		oX.Result, oX.Events = "event", o.Events[:1]
+		if !o.Events[0].Err {
+			oX.Latest = op.Head
+		}
+	}
+	if len(o.Events) > 1 {
+		oY.Result, oY.Events = "event", o.Events[1:]
+	}
+	for p := range have {
+		oX.Store = append(oX.Store, p)
+	}
+	sort.Ints(oX.Store)
+	oY.Latest0 = oX.Latest
+	return
+}
+
+// History runs the ops on one fresh subscriber.  eff is the list of syncs that happened (an
+// announce2 op is two), obs what was observed of each.
+func (w *World) History(cfg Config, ops []Op) (eff []Op, obs []Obs, late []Ev) {
 	r := w.NewRun(cfg)
+	prev := append([]int(nil), cfg.Pre...)
+	sort.Ints(prev)
 	for _, op := range ops {
-		obs = append(obs, r.Do(op))
+		o := r.Do(op)
+		if op.Mode == "announce2" {
+			opX, opY, oX, oY := w.Split(op, o, prev)
+			eff = append(eff, opX, opY)
+			obs = append(obs, oX, oY)
+		} else {
+			eff = append(eff, op)
+			obs = append(obs, o)
+		}
+		prev = o.Store
 	}
 	late = r.Close()
 	return
